@@ -100,13 +100,27 @@ type imap interface {
 
 // ---- ASTNodes ---------------------------------------------------------
 
-var keyNames = []string{"a", "b", "c"}
+// keyNames: the three keys of the state search, then the keys of the big-map family.
+var keyNames = func() []string {
+	out := []string{"a", "b", "c"}
+	for i := 3; i < 1100; i++ {
+		out = append(out, fmt.Sprintf("k%04d", i))
+	}
+	return out
+}()
 
-func keyIdx(s string) int {
+var keyIndex = func() map[string]int {
+	m := map[string]int{}
 	for i, k := range keyNames {
-		if k == s {
-			return i
-		}
+		m[k] = i
+	}
+	return m
+}()
+
+// keyIdx: -1 for a key that was never inserted (e.g. the zero key "").
+func keyIdx(s string) int {
+	if i, ok := keyIndex[s]; ok {
+		return i
 	}
 	return -1
 }
@@ -348,6 +362,10 @@ func apply(m imap, r *orderedmap.Map, op Op) (diff string) {
 			pred = func(k, v int) bool { return v%2 == 0 }
 		case "Filter(drop all)":
 			pred = func(k, v int) bool { return false }
+		case "Filter(keep every 8th key)":
+			pred = func(k, v int) bool { return k%8 == 0 }
+		case "Filter(keep every 2nd key)":
+			pred = func(k, v int) bool { return k%2 == 0 }
 		default:
 			pred = func(k, v int) bool { return true }
 		}
@@ -402,9 +420,20 @@ func apply(m imap, r *orderedmap.Map, op Op) (diff string) {
 func pretty(l [][2]int) string {
 	var s []string
 	for _, e := range l {
+		if e[0] < 0 || e[0] >= 3 {
+			s = append(s, fmt.Sprintf("#%d=%d", e[0], e[1]))
+			continue
+		}
 		s = append(s, fmt.Sprintf("%c=%d", 'a'+e[0], e[1]))
 	}
 	return "[" + strings.Join(s, " ") + "]"
+}
+
+func kn(k int) string {
+	if k >= 0 && k < len(keyNames) {
+		return keyNames[k]
+	}
+	return fmt.Sprintf("#%d", k)
 }
 
 // observe compares every observer with the reference.
@@ -418,18 +447,24 @@ func observe(m imap, r *orderedmap.Map) (diff string) {
 	if m.Len() != r.Len() {
 		return fmt.Sprintf("Len()=%d, reference has %d live keys %v", m.Len(), r.Len(), pretty(want))
 	}
-	for k := 0; k < 3; k++ {
+	probe := []int{0, 1, 2}
+	for _, e := range want {
+		if e[0] > 2 {
+			probe = append(probe, e[0])
+		}
+	}
+	for _, k := range probe {
 		wv, wok := r.Get(k)
 		v, ok := m.Get(k)
 		if ok != wok || (ok && v != wv) {
-			return fmt.Sprintf("Get(%c)=(%d,%v), want (%d,%v)", 'a'+k, v, ok, wv, wok)
+			return fmt.Sprintf("Get(%s)=(%d,%v), want (%d,%v)", kn(k), v, ok, wv, wok)
 		}
 		if m.Has(k) != wok {
-			return fmt.Sprintf("Has(%c)=%v, want %v", 'a'+k, m.Has(k), wok)
+			return fmt.Sprintf("Has(%s)=%v, want %v", kn(k), m.Has(k), wok)
 		}
 		gv := m.GetValue(k)
 		if (wok && gv != wv) || (!wok && gv != 0) {
-			return fmt.Sprintf("GetValue(%c)=%d, want %d", 'a'+k, gv, wv)
+			return fmt.Sprintf("GetValue(%s)=%d, want %d", kn(k), gv, wv)
 		}
 	}
 	var each [][2]int
@@ -541,6 +576,7 @@ type node struct {
 }
 
 func run(c *ev.Ctx) {
+	bigMaps(c)
 	ops := alphabet()
 	c.Bound("keys", 3)
 	c.Bound("values", 2)
